@@ -330,6 +330,11 @@ Definition estep (img : list Z) (le : bool) (sh_offset sh_size : Z) (st : einfo)
                                        from the same little_endian *)
   | EReopen =>          (* EHABIInfo.__init__: self._num_entry = None; entries and decoders handed out stay alive *)
       (mkEInfo None (ei_entries st) (ei_decoders st), EAUnit)
+  | EMutate e =>        (* the entry object belongs to the caller: get_entry builds a new one on every call *)
+      match nth_error (ei_entries st) e with
+      | Some r => (mkEInfo (ei_num st) (set_nth (ei_entries st) e (mutate_entry r)) (ei_decoders st), EAUnit)
+      | None => (st, EABad)
+      end
   end.
 
 Fixpoint erun (img : list Z) (le : bool) (sh_offset sh_size : Z) (st : einfo) (h : list eop) : list eans :=
